@@ -56,7 +56,7 @@ def isWindowsDrive (buf : Str) (ch : Char) : Bool :=
 def scan : Str → Str → Vol → Option Vol
   | [], _, v => some v
   | ch :: r, buf, v =>
-    if isWindowsDrive buf ch then scan r (buf ++ [ch]) v
+    if isWindowsDrive buf ch && (v.source = [] || v.target = []) then scan r (buf ++ [ch]) v
     else if ch = ':' || ch = NUL then
       match populate (ch = NUL) buf v with
       | none => none
